@@ -17,46 +17,12 @@ from props import thr as TH
 LEVEL = "proof"
 
 
-def inv_array(run):
-    """the (sorted) array handed to _invert_increasing_function"""
-    try:
-        outs = run.ex.locals["_invert_increasing_function"][-1]
-        return outs[0].env["scores"]
-    except Exception:
-        return None
+PARTS = TH.METRICS + ["misc"]
 
 
-def add_facts(run, path, th):
-    run.add_cnt_facts(path, th)
-    a = inv_array(run)
-    if a is not None and a.sym is not None:
-        path.add(P.cnt_char(a.sym[0], a.sym[1], th))
-
-
-def build(sizes=None, only=None):
-    obs = []
-    for metric in TH.METRICS:
-        for sc, ec in B.CONFIGS:
-            for method in TH.METHODS:
-                tag = f"[{sc},{ec},{method}]"
-                if only is not None and not any(f"/{metric}/" in i and i.endswith(tag) for i in only):
-                    continue
-                run = TH.ThrRun(metric, sc, ec, method, sizes)
-                if not run.ok or run.th is None:
-                    obs.append(Oblig(f"C03/{metric}/single-non-raising-path{tag}", [], BoolVal(False), "post", ("C03",)))
-                    continue
-                path = run.path
-                add_facts(run, path, run.th)
-                for end, cond, want in (("low", run.r <= 0, run.lo_c), ("high", run.r >= 1, run.hi_c)):
-                    o = Oblig(f"C03/{metric}/extreme-{end}{tag}", path.pc, Implies(cond, run.count(run.th) == want), "post", ("C03",),
-                              {"key": f"C03/{metric}/extreme-{end}[{sc},{ec}]",
-                               "case": (lambda m, run=run, end=end: run.case(m, {"clause": "extreme", "end": end}))})
-                    obs.append(o)
-                for so in run.side:
-                    so.id = f"C03/{metric}/safety:{so.id}{tag}"
-                    so.props = ("C03", "C02")
-                    obs.append(so)
-    return obs
+def build(sizes=None, only=None, part=None):
+    from props import thr2
+    return thr2.build(sizes, only, ("C03",), part)
 
 
 def oracle(case):
@@ -79,31 +45,73 @@ def replay(case):
     return oracle(case)
 
 
-def bounded(chk):
-    maxn = 4 if chk.tier == "quick" else 6
-    easy = [(0, 0), (2, 0), (0, 3), (1, 2)] if chk.tier == "quick" else [(0, 0), (1, 0), (0, 1), (2, 0), (0, 3), (1, 2), (3, 3), (11, 0), (0, 20)]
-    targets = [-0.5, 0.0, -0.0, 1.0, 1.5]
-    chk.bounded["bound"] = f"all order types of pos+neg <= {maxn} scores, easy counts {easy}, 4 configurations, 6 metrics, 3 methods, targets {targets}"
-    chk.bounded["rule"] = "enumerated; a case is non-trivial when the relevant class has at least one score"
-    chk.bounded["exhaustive"] = True
-    for pos, neg in B.order_types(maxn):
-        for ep, en in easy:
+TARGETS = [-0.5, 0.0, -0.0, 1.0, 1.5]
+
+
+def eval_items(items):
+    counts, viols = {"extreme": [0, 0]}, []
+    for pos, neg, ep, en in items:
+        for sc, ec in B.CONFIGS:
+            for metric in TH.METRICS:
+                base = {"clause": "extreme", "pos": pos, "neg": neg, "ep": ep, "en": en, "sc": sc, "ec": ec, "metric": metric}
+                if TH.pop_info(base)[0] == 0:
+                    continue
+                for method in TH.METHODS:
+                    for r in TARGETS:
+                        case = dict(base, method=method, r=r)
+                        res = oracle(case)
+                        counts["extreme"][0] += 1
+                        counts["extreme"][1] += 1
+                        if res:
+                            end = "low" if r <= 0 else "high"
+                            viols.append(("extreme", f"C03/{metric}/extreme-{end}[{sc},{ec}]", res, B.jsonable(case)))
+    return counts, viols, []
+
+
+def eval_sweep(items):
+    counts, viols = {"extreme-rounding-sweep": [0, 0]}, []
+    for _, n, e in items:
+        pos = [float(k) for k in range(1, n + 1)]
+        neg = [float(k) + 0.5 for k in range(1, n + 1)]
+        for ep, en in ((e, 0), (0, e), (e, e)) if e else ((0, 0),):
             for sc, ec in B.CONFIGS:
                 for metric in TH.METRICS:
-                    base = {"clause": "extreme", "pos": pos, "neg": neg, "ep": ep, "en": en, "sc": sc, "ec": ec, "metric": metric}
-                    if TH.pop_info(base)[0] == 0:
-                        continue
-                    for method in TH.METHODS:
-                        for r in targets:
-                            case = dict(base, method=method, r=r)
-                            res = oracle(case)
-                            chk.count("extreme", 1, 1)
-                            if res:
-                                end = "low" if r <= 0 else "high"
-                                # floats: D2-type rounding of the easy-sample rescaling is a separate key
-                                chk.violation("extreme", f"C03/{metric}/extreme-{end}[{sc},{ec}]", res, B.jsonable(case))
+                    for r in (0.0, 1.0):
+                        case = {"clause": "extreme", "pos": pos, "neg": neg, "ep": ep, "en": en, "sc": sc, "ec": ec, "metric": metric, "method": "linear", "r": r}
+                        res = oracle(case)
+                        counts["extreme-rounding-sweep"][0] += 1
+                        counts["extreme-rounding-sweep"][1] += 1
+                        if res:
+                            viols.append(("extreme", f"C03/{metric}/extreme-{'low' if r <= 0 else 'high'}[{sc},{ec}]", res, B.jsonable(case)))
+    return counts, viols, []
+
+
+def bounded(chk):
+    from vf.framework import run_bounded
+    maxn = 4 if chk.tier == "quick" else 6
+    easy = [(0, 0), (2, 0), (0, 3), (1, 2)] if chk.tier == "quick" else [(0, 0), (1, 0), (0, 1), (2, 0), (0, 3), (1, 2), (3, 3), (11, 0), (0, 20), (6, 0), (0, 23)]
+    chk.bounded["bound"] = f"all order types of pos+neg <= {maxn} scores (values 1,2,.. and shifted by -10), easy counts {easy}, 4 configurations, 6 metrics, 3 methods, targets {TARGETS}"
+    chk.bounded["rule"] = "enumerated; a case is non-trivial when the relevant class has at least one score"
+    chk.bounded["exhaustive"] = True
+    items = []
+    for pos, neg in B.order_types(maxn):
+        for sh in (0.0, -10.0):
+            if sh and len(pos) + len(neg) > 3 and chk.tier == "quick":
+                continue
+            for ep, en in easy:
+                items.append(([v + sh for v in pos], [v + sh for v in neg], ep, en))
+    run_bounded(chk, items, eval_items)
+    # float sweep of the easy-sample rescaling at the exact end targets (the proof layer is exact-real and cannot see rounding)
+    nmax, emax = (8, 32) if chk.tier == "quick" else (16, 64)
+    sweep = []
+    for n in range(1, nmax + 1):
+        for e in range(0, emax + 1):
+            sweep.append(("sweep", n, e))
+    run_bounded(chk, sweep, eval_sweep)
+    chk.bounded["bound"] += f"; rounding sweep: 1..{nmax} distinct scores per class x easy counts 0..{emax} (one class or both), r in {{0,1}}, 6 metrics, 4 configurations"
+    chk.samples.append({"bounded-case": {"pos": [-9.0], "neg": [-8.0, -7.0, -7.0], "easy": [0, 3], "config": ["neg", "neg"], "metric": "tnr", "method": "lower", "r": 1.0}})
 
 
 def run(chk):
-    prove(chk, build, ground_sizes=[(1, 1, 0, 0), (1, 1, 2, 3), (2, 1, 0, 0), (1, 2, 0, 0), (2, 2, 1, 1), (2, 1, 2, 0), (1, 2, 0, 3)], replay=replay)
+    prove(chk, build, ground_sizes=[(1, 1, 0, 0), (1, 1, 2, 3), (2, 1, 0, 0), (1, 2, 0, 0), (2, 2, 1, 1), (2, 1, 2, 0), (1, 2, 0, 3)], replay=replay, parts=PARTS)
     bounded(chk)
